@@ -492,6 +492,8 @@ def c02(tier, seed):
 def c08(tier, seed):
     t0 = time.time(); prop = "C08"
     cases = mt_cases(prop, "prodcons", tier, seed)
+    # remote frees into a heap that its owner deletes meanwhile must not be lost either (same oracle as C10's concurrent part)
+    cases += mt_cases(prop, "heapdel", tier, seed, n_baton=tier_n(tier, 300, 10000), n_par=tier_n(tier, 4, 40), n_tsan=tier_n(tier, 2, 20), start=500000)
     v = Verdict(prop)
     for c in core.run_cases(cases): v.add(c)
     series = [(c.result or {}).get("areas_series") for c in cases if (c.result or {}).get("areas_series")][-3:]
